@@ -251,7 +251,17 @@ def _build(spec, rso_mod=None, variant=None):
     B.xs, B.zs, B.ys = xs, zs, ys
     zoff = np.concatenate(([0], np.cumsum(spec['zsplit'])))
     xoff = np.concatenate(([0], np.cumsum(spec['xsplit'])))
-    # adaptation
+    # adaptation; the unused late random variable is declared either after all adapt() calls or
+    # in the middle of them (after the k-th call)
+    B.late_rvar = None
+    late_at = int(rng.integers(1, 4)) if (spec.get('late_rvar') and rng.random() < 0.5) else None
+    ncalls = [0]
+
+    def adapted():
+        ncalls[0] += 1
+        if late_at is not None and ncalls[0] == late_at and B.late_rvar is None:
+            B.late_rvar = m.rvar(int(spec['late_rvar']))
+
     for r, y in zip(spec['rules'], ys):
         mask = np.array(r['mask'])
         if mask.size == 0:
@@ -260,15 +270,18 @@ def _build(spec, rso_mod=None, variant=None):
             sub = mask[:, zoff[bi]:zoff[bi + 1]]
             if sub.all() and rng.random() < 0.7:
                 y.adapt(z)
+                adapted()
                 continue
             for i in range(r['n']):
                 if sub[i].all() and sub.shape[1] > 0 and rng.random() < 0.6:
                     y[i].adapt(z)
+                    adapted()
                     continue
                 for j in range(sub.shape[1]):
                     if sub[i, j]:
                         y[i].adapt(z[j])
-    if spec.get('late_rvar'):
+                        adapted()
+    if spec.get('late_rvar') and B.late_rvar is None:
         # a random variable declared after adapt() and never used anywhere
         B.late_rvar = m.rvar(int(spec['late_rvar']))
     _hook(variant, 'declared', B)
